@@ -47,7 +47,7 @@ Definition spec_impl : dict_impl fmap (key * val) :=
     (fun m => m).
 
 (* flags only matter to the specification through "a literal is a fresh dictionary" *)
-Definition spec_flags : flags := mkFlags true true true.
+Definition spec_flags : flags := mkFlags true true true true.
 
 Definition spec_run (ops : list op) : state fmap * list (res (key * val)) :=
   run spec_impl spec_flags ops init_state.
